@@ -258,3 +258,264 @@ Proof.
   apply (L m fuel m 1); lia.
 Qed.
 Print Assumptions C11_translated_tree_capacity_is_model.
+
+(* =================== the PrioritizedReplayBuffer methods over abstract tree objects ================== *)
+(* _update_priority, the priority loop of add, update_priorities and _sample_proportional are translated with the two
+   segment trees as ABSTRACT objects (operations: tree[idx] = x, sum(), retrieve(x); also x ** alpha, float (op) int,
+   super().add, data.shape[0]; harness/pytrans.py, C11 PER table).  Here the operations are interpreted by the model's
+   tree functions (setitem / root / retrieve on the tree arrays of capacity tc — the functions the theorems above tie to
+   the translated SegmentTree code) and the translated methods are proved equal to the model's update_priority /
+   add_loop / per_update / sample_proportional: same assert, both trees written with priority ** alpha, max_priority
+   the running maximum, tree_ptr advancing modulo max_size, priorities floored at 1e-5, stratified upper bounds
+   u * (b - a) + a with a = segment * i and b = segment * (i + 1). *)
+(* C11.PerProofs (imported through GenericProofs) makes the carrier implicit in the projections of [per]; this part
+   was written against C11.Model alone *)
+Arguments max_size : clear implicits. Arguments tcap : clear implicits. Arguments size : clear implicits.
+Arguments cursor : clear implicits. Arguments tree_ptr : clear implicits. Arguments max_prio : clear implicits.
+Arguments sumt : clear implicits. Arguments mint : clear implicits.
+Section PerEquiv.
+Variable C : carrier.
+Variables (powa powb : C -> C).
+Variable tc : nat.     (* the capacity of the two trees (a power of two >= max_size; fixed by __init__) *)
+
+(* ---- interpretation of the abstract tree operations by the model's tree functions ---- *)
+Definition i_sum_set (i : Z) (t : list C) (v : C) : list C := setitem (c_add C) (c_zero C) tc t (Z.to_nat i) v.
+Definition i_min_set (i : Z) (t : list (option C)) (v : C) : list (option C) := setitem (omin C) None tc t (Z.to_nat i) (Some v).
+Definition i_sum_total (t : list C) : C := root (c_add C) (c_zero C) tc t.
+Definition i_sum_retrieve (t : list C) (ub : C) : res Z :=
+  match retrieve C tc t ub with Some k => Ok (Z.of_nat k) | None => PyErr AssertionError end.
+Definition i_sum_get (t : list C) (i : Z) : res C :=
+  if ((0 <=? i) && (i <? Z.of_nat tc))%Z then Ok (leaf (c_zero C) tc t (Z.to_nat i)) else PyErr AssertionError.
+Definition i_min_min (t : list (option C)) : res C :=
+  match root (omin C) None tc t with Some m => Ok m | None => PyErr ValueError end.
+Definition i_mul_z (a : C) (i : Z) : C := c_mul C a (c_of_nat C (Z.to_nat i)).
+Definition i_div_z (a : C) (i : Z) : C := c_div C a (c_of_nat C (Z.to_nat i)).
+
+Definition per_fields (s : per C) : list C * list (option C) * C := (sumt C s, mint C s, max_prio C s).
+
+Definition t_update (s : per C) (idx : Z) (p : C) :=
+  PER_update_priority C powa powb i_sum_get i_min_min i_sum_set i_min_set i_sum_total i_sum_retrieve i_mul_z i_div_z
+    (fun (x : unit) (_ : nat) => x) Z.of_nat
+    (Z.of_nat (max_size C s)) (sumt C s) (mint C s) (max_prio C s) idx p.
+
+Theorem C11_translated_update_priority_is_model :
+  forall (s : per C) (idx : nat) (p : C), tcap C s = tc ->
+    t_update s (Z.of_nat idx) p
+    = match update_priority C powa s idx p with Some s' => Ok (per_fields s') | None => PyErr AssertionError end.
+Proof.
+  intros s idx p Htc. unfold t_update, PER_update_priority, update_priority. cbv zeta.
+  destruct (Z.leb_spec 0 (Z.of_nat idx)); [|lia].
+  destruct (Nat.ltb_spec idx (max_size C s)); destruct (Z.ltb_spec (Z.of_nat idx) (Z.of_nat (max_size C s))); try lia;
+    cbn [andb]; [|reflexivity].
+  unfold per_fields, i_sum_set, i_min_set, py_max. cbn [sumt mint max_prio]. rewrite Nat2Z.id, Htc. reflexivity.
+Qed.
+
+Lemma for_go_S {S : Type} (k : nat) (i : Z) (body : Z -> S -> res (S + S)) (s : S) :
+  for_go (Datatypes.S k) i body s =
+  bind (body i s) (fun r => match r with inl s' => for_go k (i + 1)%Z body s' | inr s' => Ok s' end).
+Proof. reflexivity. Qed.
+
+Definition t_add (s : per C) (n : nat) :=
+  PER_add C powa powb i_sum_get i_min_min i_sum_set i_min_set i_sum_total i_sum_retrieve i_mul_z i_div_z
+    (fun (x : unit) (_ : nat) => x) Z.of_nat
+    (Z.of_nat (max_size C s)) (sumt C s) (mint C s) (max_prio C s) (Z.of_nat (tree_ptr C s)) tt n.
+
+Definition per_fields_ptr (s : per C) := (sumt C s, mint C s, max_prio C s, Z.of_nat (tree_ptr C s)).
+
+Lemma update_keeps (s s' : per C) idx p : update_priority C powa s idx p = Some s' ->
+  max_size C s' = max_size C s /\ tcap C s' = tcap C s /\ tree_ptr C s' = tree_ptr C s /\ idx < max_size C s.
+Proof.
+  unfold update_priority. destruct (Nat.ltb_spec idx (max_size C s)); [|discriminate].
+  intros E. injection E as <-. cbn. auto.
+Qed.
+
+(* the priority loop of add: n new entries get the current maximal priority at tree_ptr, which wraps at max_size *)
+Theorem C11_translated_per_add_is_model :
+  forall (s : per C) (n : nat), tcap C s = tc ->
+    t_add s n = match add_loop C powa n s with
+                | Some s' => Ok (sumt C s', mint C s', max_prio C s', Z.of_nat (tree_ptr C s'), tt)
+                | None => PyErr AssertionError
+                end.
+Proof.
+  intros s n Htc. unfold t_add, PER_add. cbv zeta. unfold for_range. rewrite Z.sub_0_r, Nat2Z.id.
+  set (M := max_size C s).
+  match goal with |- context [for_go _ _ ?body _] => set (BODY := body) end.
+  assert (L : forall k i s1, tcap C s1 = tc -> max_size C s1 = M ->
+             for_go k i BODY (per_fields_ptr s1)
+             = match add_loop C powa k s1 with Some s' => Ok (per_fields_ptr s') | None => PyErr AssertionError end).
+  { induction k as [|k IH]; intros i s1 H1 H2; [reflexivity|].
+    rewrite for_go_S. unfold BODY at 1. unfold per_fields_ptr at 1.
+    pose proof (C11_translated_update_priority_is_model s1 (tree_ptr C s1) (max_prio C s1) H1) as HU.
+    unfold t_update in HU. rewrite H2 in HU. rewrite HU. clear HU. cbn [add_loop].
+    destruct (update_priority C powa s1 (tree_ptr C s1) (max_prio C s1)) as [s2|] eqn:EU; [|reflexivity].
+    destruct (update_keeps _ _ _ _ EU) as (K1 & K2 & K3 & K4).
+    unfold per_fields. cbn [bind]. unfold zmod.
+    destruct (Z.eqb_spec (Z.of_nat M) 0); [lia|]. cbn [bind].
+    rewrite <- (IH (i + 1)%Z (set_ptr C s2 ((tree_ptr C s1 + 1) mod max_size C s1))) by (cbn; congruence).
+    unfold per_fields_ptr, set_ptr. cbn [sumt mint max_prio tree_ptr].
+    rewrite H2. rewrite Nat2Z.inj_mod, Nat2Z.inj_add. reflexivity. }
+  pose proof (L n 0%Z s Htc eq_refl) as HL. unfold per_fields_ptr at 1 in HL. rewrite HL.
+  destruct (add_loop C powa n s); reflexivity.
+Qed.
+
+Lemma zget_mid {A} (pre : list A) (x : A) (r : list A) : zget (pre ++ x :: r) (Z.of_nat (length pre)) = Ok x.
+Proof.
+  unfold zget. destruct (Z.ltb_spec (Z.of_nat (length pre)) 0); [lia|].
+  rewrite Nat2Z.id, nth_error_app2, Nat.sub_diag by lia. reflexivity.
+Qed.
+
+Definition zs (l : list nat) : list Z := map Z.of_nat l.
+
+Definition t_update_all (s : per C) (idxs : list nat) (prios : list C) :=
+  PER_update_priorities C powa powb i_sum_get i_min_min i_sum_set i_min_set i_sum_total i_sum_retrieve i_mul_z i_div_z
+    (fun (x : unit) (_ : nat) => x) Z.of_nat
+    (Z.of_nat (max_size C s)) (sumt C s) (mint C s) (max_prio C s) (zs idxs) prios.
+
+(* update_priorities: index / priority pairs in step, every priority floored at 1e-5, the first failing assert stops *)
+Theorem C11_translated_update_priorities_is_model :
+  forall (s : per C) (idxs : list nat) (prios : list C), tcap C s = tc ->
+    t_update_all s idxs prios
+    = match per_update C powa s (combine idxs prios) with
+      | (s', false) => Ok (per_fields s')
+      | (_, true) => PyErr AssertionError
+      end.
+Proof.
+  intros s idxs prios Htc. unfold t_update_all, PER_update_priorities. cbv zeta.
+  unfold for_range, zlen, zs. rewrite Z.sub_0_r, map_length, <- Nat2Z.inj_min, Nat2Z.id.
+  set (M := max_size C s).
+  match goal with |- context [for_go _ _ ?body _] => set (BODY := body) end.
+  assert (L : forall irest ipre ppre prest s1, idxs = ipre ++ irest -> prios = ppre ++ prest ->
+             length ppre = length ipre -> tcap C s1 = tc -> max_size C s1 = M ->
+             for_go (Nat.min (length irest) (length prest)) (Z.of_nat (length ipre)) BODY (per_fields s1)
+             = match per_update C powa s1 (combine irest prest) with
+               | (s', false) => Ok (per_fields s') | (_, true) => PyErr AssertionError end).
+  { induction irest as [|i irest IH]; intros ipre ppre prest s1 Hi Hp Hl H1 H2; [reflexivity|].
+    destruct prest as [|p prest]; [reflexivity|].
+    cbn [length Nat.min combine per_update]. rewrite for_go_S. unfold BODY at 1. unfold per_fields at 1.
+    rewrite Hi at 1. rewrite map_app. cbn [map].
+    replace (Z.of_nat (length ipre)) with (Z.of_nat (length (map Z.of_nat ipre))) at 1 by (rewrite map_length; reflexivity).
+    rewrite zget_mid. cbn [bind]. cbv zeta.
+    rewrite Hp at 1. rewrite <- Hl at 1. rewrite zget_mid. cbn [bind].
+    pose proof (C11_translated_update_priority_is_model s1 i (floor_prio C p) H1) as HU.
+    unfold t_update, floor_prio in HU. rewrite H2 in HU. unfold py_max at 1. rewrite HU. clear HU.
+    fold (floor_prio C p).
+    destruct (update_priority C powa s1 i (floor_prio C p)) as [s2|] eqn:EU; [|reflexivity].
+    destruct (update_keeps _ _ _ _ EU) as (K1 & K2 & K3 & K4). cbn [bind].
+    replace (Z.of_nat (length ipre) + 1)%Z with (Z.of_nat (length (ipre ++ [i]))) by (rewrite app_length; cbn [length]; lia).
+    apply (IH (ipre ++ [i]) (ppre ++ [p]) prest s2); try congruence.
+    - rewrite <- app_assoc. exact Hi.
+    - rewrite <- app_assoc. exact Hp.
+    - rewrite !app_length. cbn [length]. lia. }
+  pose proof (L idxs [] [] prios s eq_refl eq_refl eq_refl Htc eq_refl) as HL.
+  cbn [length Z.of_nat] in HL. unfold per_fields at 1 in HL. rewrite HL.
+  destruct (per_update C powa s (combine idxs prios)) as [s' [|]]; reflexivity.
+Qed.
+
+Lemma upd_nat_mid {A} (pre : list A) (x v : A) (r : list A) : upd_nat (pre ++ x :: r) (length pre) v = pre ++ v :: r.
+Proof. induction pre as [|a pre IH]; cbn; [reflexivity|]. rewrite IH. reflexivity. Qed.
+Lemma zset_mid {A} (pre : list A) (x v : A) (r : list A) :
+  zset (pre ++ x :: r) (Z.of_nat (length pre)) v = Ok (pre ++ v :: r).
+Proof.
+  unfold zset, zlen. destruct (Z.ltb_spec (Z.of_nat (length pre)) 0); [lia|].
+  rewrite app_length. cbn [length].
+  destruct (Z.ltb_spec (Z.of_nat (length pre)) (Z.of_nat (length pre + S (length r)))); [|lia].
+  rewrite Nat2Z.id, upd_nat_mid. reflexivity.
+Qed.
+
+Definition t_sample (s : per C) (us : list C) :=
+  PER_sample_proportional C powa powb i_sum_get i_min_min i_sum_set i_min_set i_sum_total i_sum_retrieve i_mul_z i_div_z
+    (fun (x : unit) (_ : nat) => x) Z.of_nat (sumt C s) (Z.of_nat (length us)) us.
+
+(* _sample_proportional(batch_size) with the batch_size uniform draws us: one stratum per draw, upper bound
+   u * (b - a) + a with a = segment * i, b = segment * (i + 1), the retrieved leaf stored at position i *)
+Theorem C11_translated_sample_proportional_is_model :
+  forall (s : per C) (us : list C), tcap C s = tc ->
+    t_sample s us = match sample_proportional C s us with
+                    | Some ks => Ok (zs ks)
+                    | None => PyErr AssertionError
+                    end.
+Proof.
+  intros s us Htc. unfold t_sample, PER_sample_proportional, sample_proportional. cbv zeta.
+  unfold for_range, zzeros, i_div_z, i_sum_total. rewrite Z.sub_0_r, !Nat2Z.id, <- Htc.
+  set (seg := c_div C (root (c_add C) (c_zero C) (tcap C s) (sumt C s)) (c_of_nat C (length us))).
+  match goal with |- context [for_go _ _ ?body _] => set (BODY := body) end.
+  assert (L : forall urest upre kpre, us = upre ++ urest -> length kpre = length upre ->
+             for_go (length urest) (Z.of_nat (length upre)) BODY (zs kpre ++ repeat 0%Z (length urest))
+             = match sample_go C s seg (length upre) urest with
+               | Some ks => Ok (zs kpre ++ zs ks) | None => PyErr AssertionError end).
+  { induction urest as [|u urest IH]; intros upre kpre Hu Hk; [reflexivity|].
+    cbn [length repeat sample_go]. rewrite for_go_S. unfold BODY at 1. cbv zeta.
+    rewrite Hu at 1. rewrite zget_mid. cbn [bind].
+    unfold i_mul_z, i_sum_retrieve, upper_bound.
+    replace (Z.to_nat (Z.of_nat (length upre) + 1)) with (length upre + 1) by lia. rewrite Nat2Z.id. rewrite Htc.
+    destruct (retrieve C tc (sumt C s) _) as [k|] eqn:ER; [|reflexivity]. cbn [bind].
+    replace (Z.of_nat (length upre)) with (Z.of_nat (length (zs kpre))) at 1 by (unfold zs; rewrite map_length; lia).
+    rewrite zset_mid. cbn [bind].
+    replace (Z.of_nat (length upre) + 1)%Z with (Z.of_nat (length (upre ++ [u]))) by (rewrite app_length; cbn [length]; lia).
+    replace (zs kpre ++ Z.of_nat k :: repeat 0%Z (length urest)) with (zs (kpre ++ [k]) ++ repeat 0%Z (length urest))
+      by (unfold zs; rewrite map_app, <- app_assoc; reflexivity).
+    rewrite (IH (upre ++ [u]) (kpre ++ [k])) by (try (rewrite <- app_assoc; exact Hu); rewrite !app_length; cbn [length]; lia).
+    replace (length (upre ++ [u])) with (S (length upre)) by (rewrite app_length; cbn [length]; lia).
+    destruct (sample_go C s seg (S (length upre)) urest) as [ks|]; [|reflexivity].
+    unfold zs. rewrite map_app, <- app_assoc. reflexivity. }
+  pose proof (L us [] [] eq_refl eq_refl) as HL. cbn [length Z.of_nat zs map app] in HL. rewrite HL.
+  destruct (sample_go C s seg 0 us); reflexivity.
+Qed.
+
+Definition t_weights (s : per C) (idxs : list nat) :=
+  PER_calculate_weights C powa powb i_sum_get i_min_min i_sum_set i_min_set i_sum_total i_sum_retrieve i_mul_z i_div_z
+    (fun (x : unit) (_ : nat) => x) Z.of_nat (sumt C s) (mint C s) (Z.of_nat (size C s)) (zs idxs).
+
+(* _calculate_weights: p_min from the min tree, max_weight = (p_min * size) ** -beta, per index
+   ((leaf / total) * size) ** -beta / max_weight; an empty buffer (min = +inf, the model's None) and an index outside
+   the tree (the assert of __getitem__) are errors on both sides *)
+Theorem C11_translated_calculate_weights_is_model :
+  forall (s : per C) (idxs : list nat), tcap C s = tc ->
+    match calculate_weights C powb s idxs with
+    | Some ws => t_weights s idxs = Ok ws
+    | None => exists e, t_weights s idxs = PyErr e
+    end.
+Proof.
+  intros s idxs Htc. unfold t_weights, PER_calculate_weights, calculate_weights. cbv zeta.
+  unfold i_min_min. rewrite Htc.
+  destruct (root (omin C) None tc (mint C s)) as [m|]; [|eexists; reflexivity]. cbn [bind].
+  unfold for_range, zlen, zs, tzeros. rewrite Z.sub_0_r, map_length, !Nat2Z.id.
+  set (total := i_sum_total (sumt C s)). unfold i_mul_z. rewrite Nat2Z.id.
+  set (maxw := powb (c_mul C (c_div C m total) (c_of_nat C (size C s)))).
+  match goal with |- context [for_go _ _ ?body _] => set (BODY := body) end.
+  assert (W : forall i, weight_of C powb s (root (c_add C) (c_zero C) tc (sumt C s)) maxw i
+                        = c_div C (powb (c_mul C (c_div C (leaf (c_zero C) tc (sumt C s) i) total) (c_of_nat C (size C s)))) maxw).
+  { intros i. unfold weight_of. rewrite Htc. reflexivity. }
+  assert (L : forall irest ipre wpre, idxs = ipre ++ irest -> length wpre = length ipre ->
+             for_go (length irest) (Z.of_nat (length ipre)) BODY (wpre ++ repeat (c_zero C) (length irest))
+             = if forallb (fun i => i <? tc) irest
+               then Ok (wpre ++ map (weight_of C powb s (root (c_add C) (c_zero C) tc (sumt C s)) maxw) irest)
+               else PyErr AssertionError).
+  { induction irest as [|i irest IH]; intros ipre wpre Hi Hw; [reflexivity|].
+    cbn [length repeat forallb map]. rewrite for_go_S. unfold BODY at 1. cbv zeta.
+    rewrite Hi at 1. rewrite map_app. cbn [map].
+    replace (Z.of_nat (length ipre)) with (Z.of_nat (length (map Z.of_nat ipre))) at 1 by (rewrite map_length; reflexivity).
+    rewrite zget_mid. cbn [bind]. unfold i_sum_get.
+    destruct (Z.leb_spec 0 (Z.of_nat i)); [|lia].
+    destruct (Nat.ltb_spec i tc); destruct (Z.ltb_spec (Z.of_nat i) (Z.of_nat tc)); try lia; cbn [andb bind]; [|reflexivity].
+    rewrite Nat2Z.id.
+    replace (Z.of_nat (length ipre)) with (Z.of_nat (length wpre)) at 1 by lia.
+    rewrite zset_mid. cbn [bind].
+    replace (Z.of_nat (length ipre) + 1)%Z with (Z.of_nat (length (ipre ++ [i]))) by (rewrite app_length; cbn [length]; lia).
+    rewrite <- W.
+    set (wi := weight_of C powb s (root (c_add C) (c_zero C) tc (sumt C s)) maxw i).
+    replace (wpre ++ wi :: repeat (c_zero C) (length irest)) with ((wpre ++ [wi]) ++ repeat (c_zero C) (length irest))
+      by (rewrite <- app_assoc; reflexivity).
+    rewrite (IH (ipre ++ [i]) (wpre ++ [wi])) by (try (rewrite <- app_assoc; exact Hi); rewrite !app_length; cbn [length]; lia).
+    destruct (forallb (fun i0 => i0 <? tc) irest); [|reflexivity]. rewrite <- app_assoc. reflexivity. }
+  pose proof (L idxs [] [] eq_refl eq_refl) as HL. cbn [length Z.of_nat app] in HL. rewrite HL.
+  fold total. unfold maxw, total, i_sum_total.
+  destruct (forallb (fun i => i <? tc) idxs); [reflexivity | eexists; reflexivity].
+Qed.
+End PerEquiv.
+
+Print Assumptions C11_translated_update_priority_is_model.
+Print Assumptions C11_translated_per_add_is_model.
+Print Assumptions C11_translated_update_priorities_is_model.
+Print Assumptions C11_translated_sample_proportional_is_model.
+Print Assumptions C11_translated_calculate_weights_is_model.
